@@ -615,6 +615,22 @@ def gen_ops(rng, m, nops, mode="unchecked"):
     maxu = max(len(u["stops"]) for u in m["units"])
     for g in m.get("groups", []):
         maxu = max(maxu, sum(len(m["units"][ui]["stops"]) for ui in g))
+    if mode == "copy_unplan":
+        # what the solver does in every iteration: work on a COPY - plan, copy, go to the copy, un-plan there, plan again
+        plan = lambda: "op planr %d %d %d %s" % (rng.randrange(1 << 20), rng.randrange(1 << 20), rng.randrange(1 << 20),  # noqa: E731
+                                                 " ".join(str(rng.randrange(1 << 20)) for _ in range(maxu)))
+        ops += [plan() for _ in range(rng.randint(3, 8))]
+        ncopies = 0
+        while len(ops) < nops:
+            ops.append("op copy")
+            ncopies += 1
+            ops.append("op switch %d" % (ncopies if rng.random() < 0.8 else rng.randrange(0, ncopies + 1)))
+            for _ in range(rng.randint(1, 4)):
+                ops.append("op unplanr %d" % rng.randrange(1 << 20))
+            for _ in range(rng.randint(0, 3)):
+                ops.append(plan())
+            ops.append("op snapall")
+        return ops
     for _ in range(nops):
         r = rng.random()
         if mode == "plan_only":
